@@ -132,7 +132,38 @@ def laneResend : List String → String
     | _, _, _, _, _, _, _, _, _, _, _ => "bad-op"
   | _ => "bad-op"
 
+/-- `c16values <h2|h3> …` (arguments of `c16fields`) → for every header-map key whose lower-cased
+name has a single spelling in the map, sorted by name: the values of the fields of that name in
+ARRIVAL order (value order and multiplicity within a name; independent of the map iteration
+order). -/
+def laneValues : List String → String
+  | [fl, m, raw, host, hdr, cl, hb, nb, gz, lim] =>
+    let fl? : Option Req.H2.Flavor :=
+      if fl == "h2" then some .h2 else if fl == "h3" then some .h3 else none
+    let lim? : Option (Option Nat) := if lim == "-" then some none else lim.toNat?.map some
+    match fl?, decodeHex m, decodeHex raw, decodeHex host, Wire.decodeHdr hdr, decodeInt cl,
+          Wire.decodeBool hb, Wire.decodeBool nb, Wire.decodeBool gz, lim? with
+    | some fl, some m, some raw, some host, some hdr, some cl, some hb, some nb, some gz, some lim =>
+      match Req.Url.parse raw with
+      | .error _ => "bad-op"
+      | .ok u =>
+        let r : Req.H2.FReq := { method := m, url := u, host := host, header := hdr,
+                                 contentLength := cl, hasBody := hb, noBody := nb, addGzip := gz,
+                                 maxHeaderList := lim }
+        match Req.H2.fields fl r with
+        | .error e => showFErr e
+        | .ok fs =>
+          let lowers := hdr.map fun kv => Req.Ascii.lower kv.key
+          let names := (lowers.filter fun n => lowers.count n == 1).mergeSort Req.BStr.le
+          if names.isEmpty then "vals -" else
+          "vals " ++ ",".intercalate (names.map fun n =>
+            encodeHex n ++ "=" ++
+              ":".intercalate ((fs.filter fun f => f.1 == n).map fun f => encodeHex f.2))
+    | _, _, _, _, _, _, _, _, _, _ => "bad-op"
+  | _ => "bad-op"
+
 def lanes : List (String × (List String → String)) := [
+  ("c16values", laneValues),
   ("c16hframes", laneHFrames),
   ("c16resend", laneResend),
   ("sort", laneSort),
